@@ -6,7 +6,7 @@ from pv.props import c01
 
 ID = "C02"
 LEVEL = "exploration"
-N = {"quick": 300, "thorough": 4000}
+N = {"quick": 450, "thorough": 4000}
 RULE = ("cases = (dividend C, divisor C1, additional_inputs, simplify, tactics_order); dividends are 'built' (C = C1 composed with a "
         "hidden partner, then optionally weakened) or 'free' (random contract with overlapping interface, assumptions that do or do not "
         "contain the divisor's); oracle: A_C and (A1+ => G1) and (A_Q+ => G_Q) must imply every term of A1, A_Q and G_C; non-trivial = "
